@@ -4,6 +4,8 @@ Shape: history + executable reference: every reference is built twice, as the re
 evaluator closure over the same sources; a link model says which reference is live for which parameter.  After every
 step each linked parameter is compared with its evaluator, each overridden one with its plain value; at quiescence the
 public watcher tables of all sources are scanned for internal sync watchers that feed no live link."""
+import operator
+
 PROP = 'C08'
 LEVEL = 'exploration'
 RULE = ('random histories (6-25 steps) over 1-2 targets with 5 allow_refs parameters (bounded/unbounded Number, Parameter, '
@@ -37,6 +39,7 @@ def setup(P):
     class Src(param.Parameterized):
         v = param.Number(default=1.0)
         w = param.Number(default=2.0)
+        op = param.Callable(default=operator.add)
 
     class Tgt(param.Parameterized):
         x = param.Number(default=0.0, bounds=(0, 100), allow_refs=True)
@@ -77,7 +80,10 @@ def make_ref(rng, srcs, tparam):
         if rng.random() < 0.5:
             return {'k': inner, 'c': 3}, (lambda: {'k': ev(), 'c': 3}), f'dict[{kind}]', deps
         return {'k': (inner, inner2)}, (lambda: {'k': (ev(), ev2())}), f'dict[({kind},{kind2})]', deps | deps2
-    c = rng.randrange(10)
+    c = rng.randrange(11)
+    if c == 10:
+        # the bound callable is itself a Parameter (a function-valued parameter of the source)
+        return (param.bind(s.param.op, s.param[pn], 3), (lambda: s.op(getattr(s, pn), 3)), 'bind-function-parameter', {(i, pn), (i, 'op')})
     if c == 8:
         # a bound function whose keyword arguments are themselves references (bound functions / reactive expressions)
         f2 = lambda p, q: p - q     # noqa: E731
@@ -242,6 +248,8 @@ def run_case(idx, rng, P, rep):
             si = rng.randrange(len(srcs))
             pn = rng.choice(['v', 'w'])
             v = rng.choice([fresh(), fresh(), fresh(), -5.0, 500.0, 0.0])
+            if rng.random() < 0.1:
+                pn, v = 'op', rng.choice([operator.add, operator.mul, operator.sub])
             steps.append('source-update')
             trace.append(('source-update', si, pn, v))
             rep.count('source_updates')
